@@ -270,6 +270,7 @@ func runStoreProp(prop, tier string, r *rng) {
 		for _, d := range []time.Duration{10 * time.Second, 365 * 24 * time.Hour, 5 * 365 * 24 * time.Hour, 10 * 365 * 24 * time.Hour, 100 * 365 * 24 * time.Hour, 1<<63 - 1} {
 			deadlineCase(prop, d)
 		}
+		flushVsDeleteCase(prop)
 		queuedDeleteCase(prop, 21, 31, 41, 25, 32)
 		queuedDeleteCase(prop, 10, 14, 20, 12, 15)
 		queuedDeleteCase(prop, 10, 14, 20, 5, 15)
@@ -996,4 +997,74 @@ func deadlineCase(prop string, d time.Duration) {
 		tl = h.H
 	}
 	emit("%s kind=deadline hours=%d => tailside=%s headside=%s head=%d tail=%d byheight=%s", prop, int64(d/time.Hour), errs(e1), errs(e2), hd, tl, strings.Join(byh, ","))
+}
+
+// flushVsDeleteCase: the deleter sits in the datastore Delete of an UNFLUSHED header (it holds the store's flush lock there)
+// when an Append fills the write batch and the flush loop starts a flush. The flush must write the pending batch as it is
+// AFTER the deleter has finished with that header - not a copy taken before: DeleteRange returned nil, the header is gone.
+func flushVsDeleteCase(prop string) {
+	ctx := context.Background()
+	chain := vhdr.Chain("A", 8, storeT0, int64(time.Second), 0)
+	core := memds.NewCore()
+	open := func() *store.Store[*vhdr.Header] {
+		st, err := store.NewStore[*vhdr.Header](&memds.Plain{C: core}, store.WithWriteBatchSize(4))
+		if err != nil {
+			panic(err)
+		}
+		if err := func() error { sc, end := startCtx(); defer end(); return st.Start(sc) }(); err != nil {
+			panic(err)
+		}
+		return st
+	}
+	st := open()
+	_ = st.Append(ctx, chain[:3]...) // 1..3, all still pending (batch of 4)
+	_ = st.Sync(ctx)
+	victim := "/headers/" + strings.ToUpper(chain[1].Hash().String())
+	parked, release := make(chan struct{}), make(chan struct{})
+	var fired sync.Once
+	core.WriteGate = func(w memds.Write) {
+		if !w.Batch && len(w.Ops) == 1 && w.Ops[0].Val == nil && strings.EqualFold(w.Ops[0].Key, victim) {
+			fired.Do(func() { close(parked); <-release })
+		}
+	}
+	derr := make(chan error, 1)
+	go func() {
+		c, cancel := context.WithTimeout(ctx, 5*time.Second)
+		defer cancel()
+		derr <- st.DeleteRange(c, 1, 3)
+	}()
+	was := "yes"
+	select {
+	case <-parked:
+	case <-time.After(2 * time.Second):
+		was = "no"
+	}
+	actx, cancelA := context.WithTimeout(ctx, time.Second)
+	_ = st.Append(actx, chain[3:6]...) // 4..6: the batch is full, the flush loop starts flushing
+	cancelA()
+	time.Sleep(60 * time.Millisecond)
+	close(release)
+	e := <-derr
+	core.WriteGate = nil
+	_ = st.Sync(ctx)
+	view := func(s *store.Store[*vhdr.Header]) string {
+		var xs []string
+		for h := 1; h <= 6; h++ {
+			a, ea := s.GetByHeight(cancelled, uint64(h))
+			_, eb := s.Get(ctx, chain[h-1].Hash())
+			if (ea == nil && a.H == uint64(h)) || eb == nil {
+				xs = append(xs, itoa(h))
+			}
+		}
+		if len(xs) == 0 {
+			return "-"
+		}
+		return strings.Join(xs, ",")
+	}
+	v1 := view(st)
+	_ = st.Stop(ctx)
+	st = open()
+	v2 := view(st)
+	_ = st.Stop(ctx)
+	emit("%s kind=flushvsdelete => parked=%s delete=%s retrievable=%s afterrestart=%s", prop, was, errs(e), v1, v2)
 }
